@@ -198,28 +198,60 @@ func VerifyFunc(pr *Prog, eff *Effects, fi *FuncInfo, opts VerifyOpts) (rep *Fun
 	fin := x.merge(o.normal, o.ret)
 	pan := o.pan
 	// deferred calls run on both exits
-	runDefer := func(s *State, i int) *State {
+	// deferred calls run on both exits; recover() in a deferred function turns a panicking exit into a normal one
+	procDefer := func(s *State, isPan bool, i int) (rfin, rpan *State) {
 		if s == nil || s.dead() {
-			return s
+			return nil, nil
+		}
+		keep := func(t *State) {
+			if isPan {
+				rpan = x.merge(rpan, t)
+			} else {
+				rfin = x.merge(rfin, t)
+			}
 		}
 		flag, ok := s.env[fmt.Sprintf("defer$%d$%d", fr.id, i)]
 		if !ok {
-			return s // never registered on this path
+			keep(s) // never registered on this path
+			return
 		}
 		reg := s.clone()
 		reg.guard(flag)
+		if isPan {
+			reg.env["$panicking"] = TTrue
+		} else {
+			reg.env["$panicking"] = TFalse
+		}
 		od := &Outcomes{}
 		x.evalCall(reg, fr, od, fr.defers[i])
-		if flag.IsTrue() {
-			return reg
+		rpan = x.merge(rpan, od.pan) // the deferred function itself panicked (or re-panicked)
+		if !reg.dead() {
+			pk := reg.env["$panicking"]
+			switch {
+			case pk == nil || pk.IsFalse():
+				rfin = x.merge(rfin, reg)
+			case pk.IsTrue():
+				rpan = x.merge(rpan, reg)
+			default:
+				still := reg.clone()
+				still.guard(pk)
+				rpan = x.merge(rpan, still)
+				reg.guard(Not(pk))
+				rfin = x.merge(rfin, reg)
+			}
 		}
-		unreg := s
-		unreg.guard(Not(flag))
-		return x.merge(reg, unreg)
+		if !flag.IsTrue() {
+			unreg := s
+			unreg.guard(Not(flag))
+			keep(unreg)
+		}
+		return
 	}
 	for i := len(fr.defers) - 1; i >= 0; i-- {
-		fin = runDefer(fin, i)
-		pan = runDefer(pan, i)
+		f1, p1 := procDefer(fin, false, i)
+		f2, p2 := procDefer(pan, true, i)
+		fin = x.merge(f1, f2)
+		pan = x.merge(p1, p2)
 	}
 	if spec != nil {
 		if fin != nil && !fin.dead() {
